@@ -19,6 +19,7 @@ pub async fn run_other(kind: &str, case: &Value) -> Value {
         "creds" => run_creds(case).await,
         "demux" => run_demux(case).await,
         "drop-close" => run_drop_close(case).await,
+        "backlog" => run_backlog(case).await,
         "big-request" => run_big_request(case).await,
         _ => json!({"verdict": "harness-error", "why": format!("unknown case kind {kind}")}),
     }
@@ -320,6 +321,7 @@ async fn run_creds(case: &Value) -> Value {
     if outcome != "wrong-password" {
         lis.ssh_password = password.clone();
     }
+    lis.ssh_auth_hangup = outcome == "server-hangs-up-on-the-password-request";
     let ep = lis.endpoint.clone();
     trace::set_text(true);
     let (pw2, kf, cf, oc) = (password.clone(), key_file.clone(), cert_file.clone(), outcome.clone());
@@ -873,4 +875,127 @@ async fn run_big_request(case: &Value) -> Value {
         }
     }
     json!({"verdict": if symptoms.is_empty() { "held" } else { "violated" }, "symptoms": symptoms, "client": out, "bytes_received": from_client.len(), "payload_bytes": payload.len()})
+}
+
+
+/// C18 / C05 over the real transports with a backlog: `n` requests are pipelined, the futures of all
+/// but `keep` of them are dropped without ever being polled, and the server answers all `n` in one
+/// go while nobody is reading - whatever queue sits between the transport's receive side and the
+/// session fills up. Then the survivors are awaited, and after a pause a fresh request is made.
+async fn run_backlog(case: &Value) -> Value {
+    let tr = Tr::parse(case["tr"].as_str().unwrap_or("ssh")).unwrap();
+    let n = case["n"].as_u64().unwrap_or(40) as usize;
+    let keep = case["keep"].as_u64().unwrap_or(2) as usize;
+    let hello = hello_bytes(&["urn:ietf:params:netconf:base:1.0"]);
+    let mut lis = match Listener::bind(tr).await {
+        Ok(l) => l,
+        Err(e) => return json!({"verdict": "harness-error", "why": format!("bind: {e}")}),
+    };
+    let ep = lis.endpoint.clone();
+    let pw = lis.ssh_password.clone();
+    let cl = tokio::spawn(async move {
+        async fn go<T: netconf::transport::Transport + 'static>(s: Result<Session<T>, netconf::Error>, n: usize, keep: usize) -> Value {
+            let mut s = match s {
+                Ok(s) => s,
+                Err(e) => return json!({"establish": format!("{e:?}")}),
+            };
+            let mut futs = Vec::new();
+            for _ in 0..n {
+                match tokio::time::timeout(Duration::from_secs(5), s.rpc::<Get, _>(|b| b.finish())).await {
+                    Ok(Ok(f)) => futs.push(f),
+                    other => return json!({"establish": "ok", "send": format!("rpc() #{} failed: {:?}", futs.len() + 1, other.map(|r| r.map(|_| ()).map_err(|e| format!("{e:?}"))))}),
+                }
+            }
+            tracing::info!(target: "vh::client", "requests-sent");
+            // the last `keep` survive, the others are abandoned unpolled
+            let survivors: Vec<_> = futs.drain(n - keep..).collect();
+            drop(futs);
+            // the server answers everything now; nobody reads for a while
+            let t0 = std::time::Instant::now();
+            while !crate::trace::snapshot().iter().any(|e| e.target == "vh::peer" && e.msg.starts_with("all-replies-sent")) && t0.elapsed() < Duration::from_secs(6) {
+                tokio::time::sleep(Duration::from_millis(5)).await;
+            }
+            tokio::time::sleep(Duration::from_millis(300)).await;
+            let mut surv = Vec::new();
+            for (k, f) in survivors.into_iter().enumerate() {
+                surv.push(match tokio::time::timeout(Duration::from_secs(4), f).await {
+                    Ok(Ok(v)) => format!("ok:{v}"),
+                    Ok(Err(e)) => format!("err:{e:?}"),
+                    Err(_) => format!("timeout(survivor {k})"),
+                });
+            }
+            // a fresh request, awaited only after its reply has had time to arrive
+            let fresh = match tokio::time::timeout(Duration::from_secs(4), s.rpc::<Get, _>(|b| b.finish())).await {
+                Ok(Ok(f)) => {
+                    tokio::time::sleep(Duration::from_millis(400)).await;
+                    match tokio::time::timeout(Duration::from_secs(4), f).await {
+                        Ok(Ok(v)) => format!("ok:{v}"),
+                        Ok(Err(e)) => format!("err:{e:?}"),
+                        Err(_) => "timeout".into(),
+                    }
+                }
+                other => format!("send: {:?}", other.map(|r| r.map(|_| ()).map_err(|e| format!("{e:?}")))),
+            };
+            json!({"establish": "ok", "survivors": surv, "fresh": fresh})
+        }
+        let to = Duration::from_secs(6);
+        match (tr, ep) {
+            (Tr::Tls, Endpoint::Tcp(p)) => match tokio::time::timeout(to, connect_tls(p)).await {
+                Ok(s) => go(s, n, keep).await,
+                Err(_) => json!({"establish": "TIMEOUT"}),
+            },
+            (Tr::Ssh, Endpoint::Tcp(p)) => match tokio::time::timeout(to, Session::ssh(("127.0.0.1", p), "vh".to_string(), pw.parse().unwrap())).await {
+                Ok(s) => go(s, n, keep).await,
+                Err(_) => json!({"establish": "TIMEOUT"}),
+            },
+            (Tr::Cli, Endpoint::Unix(path)) => {
+                let exe = std::env::current_exe().unwrap().to_string_lossy().into_owned();
+                let p = path.to_string_lossy().into_owned();
+                match tokio::time::timeout(to, Session::verif_junos_local(&exe, &["fake-cli", &p])).await {
+                    Ok(s) => go(s, n, keep).await,
+                    Err(_) => json!({"establish": "TIMEOUT"}),
+                }
+            }
+            _ => json!({"establish": "harness"}),
+        }
+    });
+    let mut conn = match tokio::time::timeout(Duration::from_secs(8), lis.accept()).await {
+        Ok(Ok(c)) => c,
+        other => return json!({"verdict": "harness-error", "why": format!("accept: {:?}", other.map(|r| r.map(|_| ())))}),
+    };
+    let _ = conn.send_unit(&hello).await;
+    let mut from_client = Vec::new();
+    let got_all = conn.read_messages(&mut from_client, 1 + n, Duration::from_secs(10)).await;
+    // every reply, one unit each, back to back
+    for k in 0..n {
+        let _ = conn.send_unit(&reply_bytes(k + 1, &format!("tag-{}", k + 1), 0, false)).await;
+    }
+    tracing::info!(target: "vh::peer", "all-replies-sent");
+    // the fresh request
+    let got_fresh = conn.read_messages(&mut from_client, 2 + n, Duration::from_secs(12)).await;
+    if got_fresh {
+        let _ = conn.send_unit(&reply_bytes(n + 1, &format!("tag-{}", n + 1), 0, false)).await;
+    }
+    let out = tokio::time::timeout(Duration::from_secs(30), cl).await.ok().and_then(Result::ok).unwrap_or(json!({"establish": "client task lost"}));
+    conn.close(CloseManner::Clean).await;
+    if out["establish"] != "ok" || !got_all {
+        return json!({"verdict": "not-exercised", "why": format!("setup: {out} (all requests received: {got_all})")});
+    }
+    let mut symptoms: Vec<String> = Vec::new();
+    if let Some(sv) = out["survivors"].as_array() {
+        for (k, v) in sv.iter().enumerate() {
+            let want = format!("ok:tag-{}", n - keep + k + 1);
+            if !v.as_str().map_or(false, |s| s.starts_with(&want)) {
+                symptoms.push("survivor-did-not-get-its-reply".into());
+            }
+        }
+    } else {
+        symptoms.push("requests-could-not-be-sent".into());
+    }
+    if !out["fresh"].as_str().map_or(false, |s| s.starts_with(&format!("ok:tag-{}", n + 1))) {
+        symptoms.push("fresh-request-after-the-backlog-failed".into());
+    }
+    symptoms.sort();
+    symptoms.dedup();
+    json!({"verdict": if symptoms.is_empty() { "held" } else { "violated" }, "symptoms": symptoms, "client": out})
 }
